@@ -177,6 +177,16 @@ Proof.
   exact (run_fifo k n _ (fun q => q) (fun q => length q <= n) _ (cl_sim k n enq_first Hn) (fun q H => H) is [] (Nat.le_0_l n) eq_refl Hl Hr).
 Qed.
 
+(* ------------------------------------------------------------------ chains through the interface adapters: certified stream acceptor *)
+(* what the harness evaluates on the observed end-to-end streams (stream_first_bad = None) implies, for a reset-free
+   history that starts and ends with nothing outstanding: delivered = accepted, as lists *)
+Theorem C17_stream_acceptor cap (h : list obs) : Forall (fun c => b_rst c = false) h ->
+  stream_first_bad cap [] 0 h = None -> obs_delivered h = obs_accepted h.
+Proof. intros Hr E. exact (stream_drained_sound cap h Hr (stream_first_bad_none cap h [] 0 E)). Qed.
+Theorem C17_stream_acceptor_prefix cap (h : list obs) q' : Forall (fun c => b_rst c = false) h ->
+  stream_run cap [] h = Some q' -> obs_accepted h = obs_delivered h ++ q' /\ length q' <= cap.
+Proof. intros Hr E. exact (stream_run_sound cap h Hr [] q' (Nat.le_0_l cap) E). Qed.
+
 (* ------------------------------------------------------------------ non-vacuity: legal runs exist and exercise the same-cycle rules *)
 Local Open Scope Z_scope.
 (* capacity-3 pipe queue: fill, then enqueue-while-full together with a dequeue; wraps around index n-1 *)
@@ -206,3 +216,4 @@ Print Assumptions C17_ctrl_fifo. Print Assumptions C17_ctrl_outputs. Print Assum
 Print Assumptions C17_e1_fifo. Print Assumptions C17_s1_fifo. Print Assumptions C17_p1_fifo. Print Assumptions C17_v1_fifo.
 Print Assumptions C17_vq_fifo. Print Assumptions C17_cl_fifo.
 Print Assumptions C17_nonvacuous_pipe3. Print Assumptions C17_nonvacuous_bypass1.
+Print Assumptions C17_stream_acceptor. Print Assumptions C17_stream_acceptor_prefix.
